@@ -81,7 +81,7 @@ CHECKS["C12"] = dict(
 
 CHECKS["C15"] = dict(
     category="model_checking", design_ref="5 C15", engine="tlc+cksim",
-    technique="TLA+ spec (Chunks.tla) of the chunk receiver as oracle; TLC validation of perturbed chunk streams fed to the real transport.Chunk (chunks produced by the real sender-side splitting)",
+    technique="TLA+ spec (Chunks.tla) of the chunk receiver as oracle; TLC validation of perturbed chunk streams fed to the real transport.Chunk (chunks produced by the real sender-side splitting of snapshot files and by the real rsm.ChunkWriter for streamed snapshots)",
     text="Chunks.tla gives, for every Add/Tick, the allowed outcomes over tracked streams, temporary/final directories and notifications; TLC judges the real receiver under seeded perturbations (drop, swap, duplicate, restart, two senders and two indexes interleaved, corrupted main-file/external-file/header bytes, foreign deployment id or binary version, replica removed, GC ticks anywhere) and requires finalized files to be byte-identical to the source and described by the one notification.",
     note="Trusted: TLC; the cksim driver (harness/transport); chunk size lowered to 1 KB through the package variable. Two recorded findings (external files and the header block are not covered by an effective checksum) are matched by signature and reported as KNOWN-FINDING.")
 
